@@ -208,7 +208,8 @@ example : printParsed [⟨.func, false⟩, ⟨.global, false⟩] = .ok [⟨false
     LLVM's order) are the numbers LLVM gives them -/
 theorem core3_accepts_only_llvm_numbering_in (ge : Core3.GEnv) (f g : Core3.Func) (h : Core3.translateIn ge f = some g) :
     LLVMSpec.agreesFrom 0 (Core3.slotsOf f) = true := by
-  unfold Core3.translateIn at h
+  have h := (Core3.translateIn_core _ _ _ h).1
+  unfold Core3.translateCore at h
   have hp := parser_accepts_exactly_llvm (Core3.slotsOf f) 0
   unfold parseAssign at h
   rw [hp] at h
